@@ -380,6 +380,6 @@ def run(ctx, rep):
         npar, nvec = run_config(ctx, rep, cfg)
         if cfg is None:
             rep.floor("C07.R1", "public parallel processing functions", npar, 5)
-            rep.floor("C07.R3", "vector ECB functions analysed lane-wise", nvec, 7)
+            rep.floor("C07.R3", "vector ECB functions analysed lane-wise", nvec, 5)
         else:
             ctx.release(cfg)
